@@ -43,9 +43,9 @@ CHECKS = {
          "60 sections (origins x 6 directions x Cartesian/spherical x forced surface temperature), 45 property lists, 11 single-property entry points, refusal of all 17 2D entry points; simulated documents of Gen.tla with 4 cross sections; tolerance 1e-9 because the code's own mapping rounds; " + NOTE,
          "TLA+/TLC (CrossSection.tla) + replay comparing 2D and 3D replies"),
  "C10": ("model_checking",
-         "Sections.tla specifies which models a segment resolves to (segment, else section, else feature) for every placement of temperature and composition models over three trench coordinates, and the two re-layouts the statement names; TLC enumerates all placements (and checks the oracle's own locality); each placement is replayed: as-written, explicit and repeated layouts must answer bit-identically, values lie between the two neighbouring coordinates' resolved values and equal a coordinate's own value at the coordinate, and removing one coordinate's entry leaves answers strictly beyond its neighbours bit-identical.",
+         "Sections.tla specifies which models a segment resolves to (segment, else section, else feature) for every placement of temperature and composition models over three trench coordinates, and the two re-layouts the statement names; TLC enumerates all placements (and checks the oracle's own locality); each placement is replayed: as-written, explicit and repeated layouts must answer bit-identically, values lie between the two neighbouring coordinates' resolved values and equal a coordinate's own value at the coordinate, and removing one coordinate's entry leaves answers strictly beyond its neighbours bit-identical. Additionally every document of the world-file grammar Gen.tla that contains a slab or fault is rewritten into its explicit form (a section entry per coordinate, every segment carrying the lists it inherits) and must answer bit-identically on the whole lattice.",
          "2 x 10^3 placements of temperature / composition models (quick: every second), 48 placements of grains / velocity models, section-geometry tables, 9 positions along a three-coordinate trench, uniform models; " + NOTE,
-         "TLA+/TLC (Sections.tla resolution oracle) + replay with twin worlds, bitwise"),
+         "TLA+/TLC (Sections.tla resolution oracle; Gen.tla explicit-form oracle) + replay with twin worlds, bitwise"),
  "C11": ("model_checking",
          "Surface.tla specifies the nodal values of a depth surface (last entry naming a coordinate wins, point-less entries name every corner) and transcribes the merge mechanism with its approx-based same-point test; TLC checks that the mechanism yields exactly one node per coordinate with the specified value for every configuration, and each configuration is replayed: the depth actually used is observed 1 m above / below the predicted depth at every nodal point and inside the polygon (exact for affine data, min/max bounds otherwise).",
          "3 polygons x listed-corner subsets x 0-2 interior points x affine/bumped x entry order x later point-less entry x area type x min/max/both, plus model-level surfaces and spherical worlds on one polygon (about 5 thousand configurations); " + NOTE,
